@@ -30,8 +30,37 @@ CNODE_TY = 'cnode'
 # ----------------------------------------------------------------------------------------
 # builder: calls as JSON-able lists, printing, driving the real class
 # ----------------------------------------------------------------------------------------
+def _opaque(kind):
+    """values copy.deepcopy handles but pickle does not: a lambda, a nested function, an instance of a
+    class defined inside a function"""
+    if kind == 1:
+        return lambda x: x * 2
+    if kind == 2:
+        def nested(x):
+            return x + 1
+        return nested
+
+    class Local:
+        def __repr__(self):
+            return 'Local()'
+    return Local()
+
+
 def params_of(code):
-    return {'p': code} if code else None
+    """params code -> dict: code % 100 is the plain value, code // 100 the kind of opaque extra value"""
+    if not code:
+        return None
+    d = {'p': code % 100} if code % 100 else {}
+    if code // 100:
+        d['x'] = _opaque(code // 100)
+    return d
+
+
+def local_node_class():
+    """a node class defined inside a function (deep-copyable, not picklable by reference)"""
+    class LocalNode(OptNode):
+        pass
+    return LocalNode
 
 
 def py_operation(o):
@@ -59,6 +88,8 @@ def c_ops(ops):
 
 def c_call(c):
     k = c[0]
+    if k == 'InitNode':       # OptGraphBuilder(adapter, LocalNode(name)) on a fresh builder = add_node(name) for the model
+        return '(AddNode %s %s %s %s)' % (c_nat(c[1]), c_ostr(c[2]), c_Z(0), c_nat(0))
     if k == 'AddNode':
         return '(AddNode %s %s %s %s)' % (c_nat(c[1]), c_ostr(c[2]), c_Z(c[3]), c_nat(c[4]))
     if k == 'AddSequence':
@@ -98,8 +129,10 @@ def node_params(n):
     p = n.content.get('params')
     if not p:
         return 0
-    if isinstance(p, dict) and list(p.keys()) == ['p'] and isinstance(p['p'], int):
-        return p['p']
+    if isinstance(p, dict) and set(p.keys()) <= {'p', 'x'} and isinstance(p.get('p', 0), int):
+        x = p.get('x')
+        kind = 0 if 'x' not in p else (3 if not callable(x) else (1 if x.__name__ == '<lambda>' else 2))
+        return 100 * kind + p.get('p', 0)
     raise AssertionError('unexpected params %r' % (p,))
 
 
@@ -156,6 +189,26 @@ class DomNode(OptNode):
 
 class DomGraph(OptGraph):
     """domain graph class for DirectAdapter"""
+
+
+class StrictGraph(OptGraph):
+    """user domain graph class: equal only to graphs of its own kind"""
+
+    def __eq__(self, other):
+        if not isinstance(other, StrictGraph):
+            return False
+        return super().__eq__(other)
+
+
+class TaggedGraph(OptGraph):
+    """user domain graph class: equality also compares a domain-only (class) attribute"""
+    domain_tag = 'user'
+
+    def __eq__(self, other):
+        return getattr(other, 'domain_tag', None) == self.domain_tag and super().__eq__(other)
+
+
+DOMAIN_EQ = {'strict': StrictGraph, 'tagged': TaggedGraph}
 
 
 ADAPTERS = ['none', 'identity', 'direct', 'direct_dom', 'dumb_nx']
@@ -237,6 +290,10 @@ class Sim:
         if c[1] >= len(objs):
             return ['ORNone']
         b = objs[c[1]]
+        if k == 'InitNode':
+            assert not b.heads
+            objs[c[1]] = OptGraphBuilder(b.graph_adapter, local_node_class()(content={'name': c[2]}))
+            return ['ORSelf']
         if k == 'AddNode':
             r = b.add_node(c[2], c[3], params_of(c[4]))
         elif k == 'AddSequence':
@@ -344,7 +401,7 @@ def alphabet(tier_full):
 
 def random_call(r, nb):
     def op():
-        return r.choice([None, 'a', 'b', 'c', '', ['d', 1], [None, 2], ['', 0], ['e', 0]])
+        return r.choice([None, 'a', 'b', 'c', '', ['d', 1], [None, 2], ['', 0], ['e', 0], ['f', 100], ['g', 203], ['h', 301]])
 
     def sop():
         return r.choice([None, 'a', 'b', 'c', ''])
@@ -355,7 +412,7 @@ def random_call(r, nb):
     k = r.choice(['AddNode', 'AddNode', 'AddSequence', 'GrowBranches', 'GrowBranches', 'AddBranch', 'AddBranch',
                   'AddSkip', 'AddSkip', 'AddSkip', 'JoinBranches', 'Reset', 'ToNodes', 'Build', 'Merge', 'Merge'])
     if k == 'AddNode':
-        return [k, b, sop(), idx(), r.choice([0, 0, 1, 2])]
+        return [k, b, sop(), idx(), r.choice([0, 0, 1, 2, 101, 200, 302])]
     if k == 'AddSequence':
         return [k, b, [op() for _ in range(r.randrange(4))], idx()]
     if k == 'GrowBranches':
@@ -365,7 +422,7 @@ def random_call(r, nb):
     if k == 'AddSkip':
         return [k, b, idx(), idx(), r.randrange(-6, 6), r.randrange(-6, 6)]
     if k == 'JoinBranches':
-        return [k, b, sop(), r.choice([0, 0, 1])]
+        return [k, b, sop(), r.choice([0, 0, 1, 201])]
     if k == 'Merge':
         return [k, r.randrange(nb), r.randrange(nb)]
     if k == 'Reset' and r.random() < 0.7:
@@ -457,6 +514,20 @@ def run_builder(ctx):
     meta = eval_builder(ctx, 'builder-random', items)
     for m in meta[:2]:
         ctx.sample({'kind': 'builder', 'k': m[0], 'calls': m[1], 'observed_last': m[2][-1]})
+    # node content that deepcopy handles but pickle does not (lambda / nested function / local class
+    # instance in the params, a node class defined inside a function): every copy point must cope
+    opaque = [['InitNode', 0, 'z'], ['AddNode', 0, 'a', 0, 101], ['AddNode', 0, 'b', 1, 202], ['JoinBranches', 0, 'j', 300],
+              ['AddSequence', 0, ['a', ['b', 103]], 0], ['GrowBranches', 0, [['c', 201], 'd']],
+              ['AddBranch', 0, [['e', 302], 'f'], 0], ['AddSkip', 0, 0, 0, 0, 1], ['ToNodes', 0], ['Build', 0],
+              ['Merge', 0, 0], ['Merge', 0, 1], ['AddNode', 1, 'x', 0, 100]]
+    items = []
+    for n in ((1, 2, 3) if full else (1, 2)):
+        for seq in itertools.product(opaque, repeat=n):
+            if all(c[0] != 'InitNode' for c in seq[1:]):
+                items.append((2, list(seq) + EPILOGUE))
+    for adapter in ('none', 'dumb_nx'):
+        eval_builder(ctx, 'builder-opaque-content', items if adapter == 'none' else items[:200], adapter=adapter)
+    ctx.set_exhaustive('builder-opaque-content', False)
     # builders configured with a graph adapter: build() = adapter.restore(OptGraph(copies)); the same
     # model (canonical form of the node objects the result is made of), the same clauses
     for adapter in ADAPTERS[1:]:
@@ -870,7 +941,11 @@ def observe_scripted(case):
     rr = pyrandom.Random(seed)
     temps = _templates()
     script = [rr.randrange(len(temps)) for _ in range(length)]
-    gp = GraphGenerationParams(adapter=make_adapter(case.get('adapter')), rules_for_constraint=list(DEFAULT_DAG_RULES),
+    # 'domain_eq': the generation function returns DOMAIN graphs of a user class that defines its own __eq__,
+    # the generator is configured with DirectAdapter(that class)
+    dom_cls = DOMAIN_EQ.get(case.get('domain_eq'))
+    adapter = DirectAdapter(dom_cls, DomNode) if dom_cls else make_adapter(case.get('adapter'))
+    gp = GraphGenerationParams(adapter=adapter, rules_for_constraint=list(DEFAULT_DAG_RULES),
                                available_node_types=TYPES)
     generated = []
     calls = [0]
@@ -884,6 +959,9 @@ def observe_scripted(case):
 
     def generation_function():
         g = OptGraph(temps[script[calls[0] % length]]())      # fresh objects, fresh uids every call
+        if dom_cls:
+            g = adapter.restore(g)
+            assert type(g) is dom_cls
         calls[0] += 1
         generated.append([gp.verifier(g) is True, sinks_of(g)])
         return g
@@ -939,6 +1017,7 @@ def eval_scripted(ctx, group, cases_in, canary=False):
         multi = sum(1 for f in o['result'] if len(f) > 1)
         ctx.count(group, key=tuple(sorted(case.items())) + (len(o['generated']),), nontrivial=n >= 2,
                   pop_size=case['pop_size'], returned=n, adapter=case.get('adapter', 'none'),
+                  domain_eq=case.get('domain_eq', 'no'),
                   multi_sink_members=min(multi, 4), generated=min(len(o['generated']), 1000) // 10 * 10,
                   short=n < case['pop_size'])
         if not ho:
@@ -1079,6 +1158,8 @@ def run_generators(ctx):
         length = r.choice([4, 8, 16, 30])
         scripted.append({'pop_size': r.randint(1, max(1, min(6, length // 3))), 'seed': r.randrange(10 ** 6),
                          'length': length, 'adapter': r.choice(ADAPTERS), 'calls': r.choice([1, 1, 2])})
+        if r.random() < 0.3:
+            scripted[-1]['domain_eq'] = r.choice(['strict', 'tagged'])
     for ps, length in [(12, 30), (4, 4), (8, 16)]:                    # more requested than distinct graphs exist
         scripted.append({'pop_size': ps, 'seed': r.randrange(10 ** 6), 'length': length})
     eval_scripted(ctx, 'population-scripted', scripted, canary=True)
